@@ -64,34 +64,58 @@ class AstDB:
     """All declarations matching `filt` in translation unit `src` (absolute path)."""
 
     def __init__(self, src, filt, extra_inc=(), cache=True):
+        """filt: one -ast-dump-filter string, or a list of several.  Node ids are only meaningful within one
+        clang invocation, so several filters are served by ONE run with the catch-all filter '::' from which
+        only declarations located in project files (/repo, /verif/.work drivers) are retained."""
         self.src = src
-        self.filt = filt
+        filters = [filt] if isinstance(filt, str) else list(filt)
+        self.filt = filters
+        project_only = len(filters) > 1 or filters == ['::']
+        fl = '::' if project_only else filters[0]
         os.makedirs(os.path.join(WORK, 'ast'), exist_ok=True)
         h = preprocess_hash(src, extra_inc)
-        key = hashlib.sha1((src + '|' + filt + '|' + h).encode()).hexdigest()
+        key = hashlib.sha1((src + '|' + fl + '|' + h + ('|proj2' if project_only else '|v2')).encode()).hexdigest()
         path = os.path.join(WORK, 'ast', key + '.json')
-        if not (cache and os.path.exists(path) and os.path.getsize(path) > 0):
-            cmd = (['clang++', '-fsyntax-only'] + flags(extra_inc) +
-                   ['-Xclang', '-ast-dump=json', '-Xclang', '-ast-dump-filter=' + filt, src])
-            tmp = path + '.tmp%d' % os.getpid()
-            with open(tmp, 'w') as f:
-                r = subprocess.run(cmd, stdout=f, stderr=subprocess.PIPE)
-            if r.returncode != 0:
-                os.unlink(tmp)
-                raise ExtractError('clang failed on %s: %s' % (src, r.stderr.decode()[-1500:]))
-            os.rename(tmp, path)
-        with open(path) as f:
-            self.objs = _parse_stream(f.read())
-        if not self.objs:
-            raise ExtractError('no declaration matches filter %r in %s' % (filt, src))
         self.byid = {}
         self._files = {}
+        if not (cache and os.path.exists(path) and os.path.getsize(path) > 0):
+            cmd = (['clang++', '-fsyntax-only'] + flags(extra_inc) +
+                   ['-Xclang', '-ast-dump=json', '-Xclang', '-ast-dump-filter=' + fl, src])
+            raw = path + '.raw%d' % os.getpid()
+            with open(raw, 'w') as f:
+                r = subprocess.run(cmd, stdout=f, stderr=subprocess.PIPE)
+            if r.returncode != 0:
+                os.unlink(raw)
+                raise ExtractError('clang failed on %s: %s' % (src, r.stderr.decode()[-1500:]))
+            with open(raw) as f:
+                objs = _parse_stream(f.read())
+            os.unlink(raw)
+            st = [None, None]
+            keep = []
+            for o in objs:
+                self._locfix(o, st)
+                if project_only:
+                    fn = (o.get('loc') or {}).get('_file') or ''
+                    if not (fn.startswith(REPO + '/') or fn.startswith(WORK) or fn.startswith(VERIF)):
+                        continue
+                keep.append(o)
+            del objs
+            tmp = path + '.tmp%d' % os.getpid()
+            with open(tmp, 'w') as f:
+                json.dump(keep, f)
+            os.rename(tmp, path)
+            self.objs = keep
+        else:
+            with open(path) as f:
+                self.objs = json.load(f)
+        if not self.objs:
+            raise ExtractError('no declaration matches filter %r in %s' % (filt, src))
         for o in self.objs:
-            self._fix(o, [None, None])
+            self._fix(o)
         self._demangle()
 
-    # clang elides "file"/"line" when equal to the previously printed location
-    def _fix(self, n, st, parent=None):
+    def _locfix(self, n, st):
+        """resolve elided file/line (stream order, state shared by the whole dump)"""
         def loc(l):
             if not isinstance(l, dict):
                 return
@@ -105,17 +129,26 @@ class AstDB:
             if 'line' in l:
                 st[1] = l['line']
             l['_file'], l['_line'] = st[0], st[1]
-        if 'loc' in n:
-            loc(n['loc'])
-        if 'range' in n:
-            loc(n['range'].get('begin'))
-            loc(n['range'].get('end'))
+        stack = [n]
+        # pre-order, children in order: identical to clang's print order
+        def rec(x):
+            if 'loc' in x:
+                loc(x['loc'])
+            if 'range' in x:
+                loc(x['range'].get('begin'))
+                loc(x['range'].get('end'))
+            for k in x.get('inner', []):
+                if isinstance(k, dict) and k:
+                    rec(k)
+        rec(n)
+
+    def _fix(self, n, parent=None):
         if 'id' in n and n.get('kind', '').endswith('Decl'):
             self.byid[n['id']] = n
         n['_parent'] = parent
         for k in n.get('inner', []):
             if isinstance(k, dict) and k:
-                self._fix(k, st, n)
+                self._fix(k, n)
 
     def _demangle(self):
         ms = sorted({n['mangledName'] for n in self.byid.values() if 'mangledName' in n})
